@@ -389,6 +389,29 @@ pub fn job_c12(out_dir: &str, tier: &str, seed: u64) {
             }
         }
     }
+    // memory-limit sweep at the buffering sites: a chunk that ends inside a construct leaves a tail to be
+    // buffered (first buffering / append); every limit from 0 to beyond the need, flags on and off
+    let tails: [&[u8]; 8] = [b"hello<xaaaa id=1>bye</xaaaa>", b"<img>hello<div class=c>t</div>", b"a<!--comment-->b", b"<p>x</p><a href='u v'>y</a>",
+        b"<title>t</title><b>", b"<!DOCTYPE html><i>", b"x<svg><![CDATA[c]]></svg>", b"<script>1</script><em>"];
+    for (ti, input) in tails.iter().enumerate() {
+        for si in [0usize, 5, 13, 14, 18] {
+            let (_, hs) = &sets[(si + ti) % sets.len()];
+            let base = gen::merge(hs, &json!({"strict": false, "enc": "utf-8"}));
+            for cut in 1..input.len() {
+                if quick && (cut + ti + si) % 2 == 1 { continue; }
+                let cuts = vec![cut];
+                let tl0 = driver::run(&base, input, &cuts, &RunOpts::default());
+                let reference = sink_bytes(&tl0);
+                for max in 0..=(input.len() - cut + 2).min(if quick { 14 } else { 40 }) {
+                    for graceful in [false, true] {
+                        let cfg = gen::merge(&base, &json!({"mem": {"max": max, "prealloc": 0, "graceful": graceful}, "bail": bails[(max + cut) % 3]}));
+                        emit(&mut sh, &cfg, input, &cuts, Some(&reference), &mut n, &opts);
+                        mem_runs += 1;
+                    }
+                }
+            }
+        }
+    }
     sh.finish(json!({"rule": "call histories new; write*; end over: empty document, every single fragment, seeded documents incl. meta-charset switches; schedules single / byte-wise / random k-cuts / every 1-cut (short); 13 observer + 7 mutating handler sets (incl. empty-string insertions and empty comment text); a handler failure injected at every invocation index (graceful flag on/off, 0-2 bail-out handlers), memory limits from 0 up with prealloc 0 (graceful on/off); every failed run is poked with one more write. Each failing run carries the failure-free run's sink as reference for the prefix clause. Non-trivial: non-empty input or a failing call.",
         "failure_injection_runs": failure_runs, "memory_limit_runs": mem_runs}));
 }
